@@ -5,6 +5,8 @@ import (
 	"bytes"
 	"encoding/json"
 	"fmt"
+	pkgerr "github.com/pkg/errors"
+	"github.com/rs/zerolog/pkgerrors"
 	"hash/fnv"
 	"io"
 	"os"
@@ -553,4 +555,73 @@ func TestSamplersConcurrent(t *testing.T) {
 			rt.Fatalf("%s", bad)
 		}
 	})
+}
+
+// TestStackMarshalerConcurrent: errors that carry a pkg/errors stack trace, rendered through
+// pkgerrors.MarshalStack by several goroutines at once. Each error keeps the trace it was created with,
+// so every line must be byte for byte what logging that error alone gives.
+func TestStackMarshalerConcurrent(t *testing.T) {
+	old := zerolog.ErrorStackMarshaler
+	zerolog.ErrorStackMarshaler = pkgerrors.MarshalStack
+	defer func() { zerolog.ErrorStackMarshaler = old }()
+	rapid.Check(t, func(rt *rapid.T) {
+		ng := rapid.IntRange(2, 8).Draw(rt, "G")
+		ne := rapid.IntRange(5, 60).Draw(rt, "N")
+		depths := make([]int, ng)
+		errs := make([]error, ng)
+		want := make([]string, ng)
+		for g := range errs {
+			depths[g] = rapid.IntRange(0, 12).Draw(rt, "depth")
+			errs[g] = deepErr(depths[g], fmt.Sprintf("failure in worker %d", g))
+			var solo bytes.Buffer
+			l := zerolog.New(&solo)
+			l.Error().Stack().Err(errs[g]).Int("g", g).Msg("solo")
+			want[g] = solo.String()
+		}
+		w := &checkWriter{mode: "gosched", gate: make(chan struct{})}
+		l := zerolog.New(w)
+		var wg sync.WaitGroup
+		for g := 0; g < ng; g++ {
+			g := g
+			wg.Add(1)
+			go func() {
+				defer wg.Done()
+				for i := 0; i < ne; i++ {
+					l.Error().Stack().Err(errs[g]).Int("g", g).Msg("solo")
+				}
+			}()
+		}
+		wg.Wait()
+		rec.Case([]byte(fmt.Sprintf("stack marshaler G=%d N=%d depths=%v", ng, ne, depths)), true, "stack-marshaler-concurrent")
+		count := make([]int, ng)
+		for _, b := range w.got {
+			ok := false
+			for g := range want {
+				if string(b) == want[g] {
+					count[g]++
+					ok = true
+					break
+				}
+			}
+			if !ok {
+				ev.SaveReplay("C06-stack", map[string]interface{}{"goroutines": ng, "events": ne, "depths": depths})
+				msg := fmt.Sprintf("with %d goroutines logging errors with stack traces at once the destination received %.400q, which is none of the lines these errors give alone", ng, b)
+				fmt.Printf("VERIF-FAIL: %s\n", msg)
+				rt.Fatalf("%s", msg)
+			}
+		}
+		for g, c := range count {
+			if c != ne {
+				rt.Fatalf("worker %d: %d of %d lines arrived", g, c, ne)
+			}
+		}
+	})
+}
+
+//go:noinline
+func deepErr(depth int, msg string) error {
+	if depth == 0 {
+		return pkgerr.New(msg)
+	}
+	return deepErr(depth-1, msg)
 }
